@@ -213,9 +213,9 @@ func (*StatementWhile) statementNode()    {}
 func (*StatementFor) statementNode()      {}
 func (*StatementForIn) statementNode()    {}
 
-func (stmt *StatementBlock) Token() Token    { return stmt.token }
-func (stmt *StatementPrint) Token() Token    { return stmt.token }
-func (stmt *StatementExpr) Token() Token     { return stmt.Expr.Token() }
+func (stmt *StatementBlock) Token() Token { return stmt.token }
+func (stmt *StatementPrint) Token() Token { return stmt.token }
+func (stmt *StatementExpr) Token() Token  { return stmt.Expr.Token() }
 func (stmt *StatementReturn) Token() Token {
 	if stmt.Expr == nil {
 		return stmt.token
